@@ -1,0 +1,201 @@
+//! Verification hook (only compiled with `--cfg lora_rs_verif`): a public facade over the
+//! crate-private [`Mac`] and read-only snapshots of its state. Adds no behaviour.
+use super::*;
+use crate::region::verif::RegionSnapshot;
+
+#[derive(Debug, Clone, PartialEq)]
+pub struct SessionSnapshot {
+    pub devaddr: [u8; 4],
+    pub nwkskey: [u8; 16],
+    pub appskey: [u8; 16],
+    pub fcnt_up: u32,
+    pub fcnt_down: Option<u32>,
+    pub adr_ack_cnt: u32,
+    pub confirmed: bool,
+    pub pending: heapless::Vec<u8, 15>,
+    pub ack_owed: bool,
+}
+
+#[derive(Debug, Clone, PartialEq)]
+pub struct Snapshot {
+    /// 0 = unjoined, 1 = OTAA join in progress, 2 = joined
+    pub state: u8,
+    pub data_rate: u8,
+    pub rx1_delay: u32,
+    pub tx_power: Option<u8>,
+    pub rx1_dr_offset: u8,
+    pub rx2_data_rate: Option<u8>,
+    pub rx2_frequency: Option<u32>,
+    pub adr_enabled: bool,
+    pub session: Option<SessionSnapshot>,
+    pub region: RegionSnapshot,
+}
+
+#[derive(Debug, Clone, Copy, PartialEq, Eq)]
+pub enum VResponse {
+    NoAck,
+    SessionExpired,
+    DownlinkReceived(u32),
+    NoJoinAccept,
+    JoinSuccess,
+    NoUpdate,
+    RxComplete,
+    Other,
+}
+
+impl From<Response> for VResponse {
+    fn from(r: Response) -> Self {
+        match r {
+            Response::NoAck => VResponse::NoAck,
+            Response::SessionExpired => VResponse::SessionExpired,
+            Response::DownlinkReceived(f) => VResponse::DownlinkReceived(f),
+            Response::NoJoinAccept => VResponse::NoJoinAccept,
+            Response::JoinSuccess => VResponse::JoinSuccess,
+            Response::NoUpdate => VResponse::NoUpdate,
+            Response::RxComplete => VResponse::RxComplete,
+            #[allow(unreachable_patterns)]
+            _ => VResponse::Other,
+        }
+    }
+}
+
+pub(crate) fn session_snapshot(s: &Session) -> SessionSnapshot {
+    SessionSnapshot {
+        devaddr: *s.devaddr.as_wire_bytes(),
+        nwkskey: s.nwkskey.inner().0,
+        appskey: s.appskey.inner().0,
+        fcnt_up: s.fcnt_up,
+        fcnt_down: s.fcnt_down(),
+        adr_ack_cnt: s.adr_ack_cnt,
+        confirmed: s.confirmed,
+        pending: heapless::Vec::from_slice(s.uplink.mac_commands()).unwrap(),
+        ack_owed: s.uplink.confirms_downlink(),
+    }
+}
+
+impl Mac {
+    pub(crate) fn verif_snapshot(&self) -> Snapshot {
+        let c = &self.configuration;
+        Snapshot {
+            state: match &self.state {
+                State::Unjoined => 0,
+                State::Otaa(_) => 1,
+                State::Joined(_) => 2,
+            },
+            data_rate: c.data_rate as u8,
+            rx1_delay: c.rx1_delay,
+            tx_power: c.tx_power,
+            rx1_dr_offset: c.rx1_dr_offset,
+            rx2_data_rate: c.rx2_data_rate.map(|d| d as u8),
+            rx2_frequency: c.rx2_frequency,
+            adr_enabled: c.adr_enabled,
+            session: self.get_session().map(session_snapshot),
+            region: self.region.verif_snapshot(),
+        }
+    }
+}
+
+/// `next_fcnt_down` of `session.rs`, exposed for exhaustive enumeration.
+pub fn next_fcnt_down(last: Option<u32>, wire: u16) -> Option<u32> {
+    session::verif_next_fcnt_down(last, wire)
+}
+
+/// `del_to_delay_ms` of `mac/mod.rs`.
+pub fn del_to_delay_ms(del: u8) -> u32 {
+    super::del_to_delay_ms(del)
+}
+
+/// One transmission request as the MAC hands it to a device front-end.
+#[derive(Debug, Clone, PartialEq)]
+pub struct VTx {
+    pub tx: radio::TxConfig,
+    pub rx1: RfConfig,
+    pub rx2: RfConfig,
+    pub frame: heapless::Vec<u8, 256>,
+}
+
+/// Facade over the crate-private MAC state machine, with its own radio buffer.
+pub struct VerifMac {
+    mac: Mac,
+    buf: RadioBuffer<256>,
+    dl: Vec<Downlink, 4>,
+}
+
+impl VerifMac {
+    pub fn new(region: region::Configuration, max_power: u8, antenna_gain: i8) -> Self {
+        Self { mac: Mac::new(region, max_power, antenna_gain), buf: RadioBuffer::new(), dl: Vec::new() }
+    }
+    pub fn join_abp(&mut self, nwkskey: NwkSKey, appskey: AppSKey, devaddr: DevAddr) {
+        self.mac.join_abp(nwkskey, appskey, devaddr)
+    }
+    pub fn set_session(&mut self, session: Session) {
+        self.mac.set_session(session)
+    }
+    pub fn get_session(&self) -> Option<&Session> {
+        self.mac.get_session()
+    }
+    pub fn join_otaa<G: RngCore>(&mut self, rng: &mut G, credentials: NetworkCredentials) -> (VTx, u16) {
+        let (tx, w, nonce) = self.mac.join_otaa::<G, 256>(rng, credentials, &mut self.buf);
+        let frame = heapless::Vec::from_slice(self.buf.as_ref_for_read()).unwrap();
+        (VTx { tx, rx1: w.rx1, rx2: w.rx2, frame }, nonce)
+    }
+    pub fn send<G: RngCore>(&mut self, rng: &mut G, data: &[u8], fport: u8, confirmed: bool) -> core::result::Result<(VTx, u32), ()> {
+        match self.mac.send::<G, 256>(rng, &mut self.buf, &SendData { data, fport, confirmed }) {
+            Ok((tx, w, fcnt)) => {
+                let frame = heapless::Vec::from_slice(self.buf.as_ref_for_read()).unwrap();
+                Ok((VTx { tx, rx1: w.rx1, rx2: w.rx2, frame }, fcnt))
+            }
+            Err(_) => Err(()),
+        }
+    }
+    fn load(&mut self, bytes: &[u8]) {
+        self.buf.clear();
+        let n = bytes.len().min(256);
+        self.buf.as_mut()[..n].copy_from_slice(&bytes[..n]);
+        self.buf.set_pos(n);
+    }
+    /// A frame received in a Class A window configured with `rf`. Returns the response and the
+    /// receive buffer as the MAC left it.
+    pub fn handle_rx(&mut self, bytes: &[u8], snr: i8, rf: &RfConfig) -> (VResponse, heapless::Vec<u8, 256>) {
+        self.load(bytes);
+        let r = self.mac.handle_rx::<256, 4>(&mut self.buf, &mut self.dl, snr, rf).into();
+        (r, heapless::Vec::from_slice(self.buf.as_ref_for_read()).unwrap())
+    }
+    #[cfg(feature = "class-c")]
+    pub fn handle_rxc(&mut self, bytes: &[u8], snr: i8, rf: &RfConfig) -> core::result::Result<VResponse, ()> {
+        self.load(bytes);
+        self.mac.handle_rxc::<256, 4>(&mut self.buf, &mut self.dl, snr, rf).map(Into::into).map_err(|_| ())
+    }
+    pub fn rx2_complete(&mut self) -> VResponse {
+        self.mac.rx2_complete().into()
+    }
+    pub fn take_downlink(&mut self) -> Option<Downlink> {
+        self.dl.pop()
+    }
+    pub fn get_rx_delay(&self, join: bool, second_window: bool) -> u32 {
+        self.mac.get_rx_delay(
+            if join { &Frame::Join } else { &Frame::Data },
+            if second_window { &Window::_2 } else { &Window::_1 },
+        )
+    }
+    #[cfg(feature = "class-c")]
+    pub fn get_rxc_config(&self) -> RxConfig {
+        self.mac.get_rxc_config()
+    }
+    pub fn set_datarate(&mut self, dr: DR) {
+        self.mac.configuration.data_rate = dr;
+    }
+    /// Same statements as `Device::set_adr` of both front-ends.
+    pub fn set_adr(&mut self, enabled: bool) {
+        self.mac.configuration.adr_enabled = enabled;
+        if !enabled && let Some(session) = self.mac.get_session_mut() {
+            session.adr_ack_cnt = 0;
+        }
+    }
+    pub fn is_joined(&self) -> bool {
+        self.mac.is_joined()
+    }
+    pub fn snapshot(&self) -> Snapshot {
+        self.mac.verif_snapshot()
+    }
+}
